@@ -354,6 +354,32 @@ def exhaustive_programs(maxlen):
             yield [["NewBundle"]] + [list(c) for c in combo]
 
 
+def staleness_programs():
+    """Fixed family about state that an earlier *resolution* leaves behind (memo tables): a short setup, a resolution of
+    x, one call that changes what x or a name printing like x denotes (a prefix that was only an alias, or is the scheme
+    of a URI string, gets registered; a default namespace appears), then x again and the qualified name the new binding
+    hands out for the same local part.  All setups of length <= 2 over 5 ops x 7 arguments x 6 changes x 2 targets."""
+    A, B = "http://a/", "http://b/"
+    setup = [["AddNs", "d", "ex", A], ["AddNs", "d", "foo", A], ["AddNs", "0", "foo", A], ["AddNs", "0", "ex", A],
+             ["AddNs", "d", "bar", B]]
+    args = [["S", "foo:x"], ["S", "ex:x"], ["S", "x"], ["S", A + "x"], ["S", "urn:x"], ["I", A + "x"], ["S", "bar:x"]]
+    changes = [("foo", B), ("urn", "urn:"), ("http", "http:"), ("ex", B), ("bar", A), ("", B)]
+    out = []
+    for k in (0, 1, 2):
+        for pre in itertools.product(setup, repeat=k):
+            if len(set(map(tuple, pre))) < k:
+                continue
+            for x in args:
+                for (cp, cu) in changes:
+                    for t in ("d", "0"):
+                        local = x[1].split(":")[-1].split("/")[-1] or "x"
+                        ch = ["SetDefault", t, cu] if cp == "" else ["AddNs", t, cp, cu]
+                        out.append([["NewBundle"]] + [list(o) for o in pre] +
+                                   [["Resolve", t, x], ch, ["Resolve", t, x], ["Resolve", t, ["Q", cp, cu, local]],
+                                    ["Resolve", t, x]])
+    return out
+
+
 def run(tier, seed, log, model_runs=True, enlarged=False):
     rng = random.Random(seed)
     n_prog = 300 if tier == "quick" else 4000
@@ -376,6 +402,9 @@ def run(tier, seed, log, model_runs=True, enlarged=False):
             progs.append(gen_program(rng, n_ops, disciplined=True, avoid_findings=True))
         else:
             progs.append(gen_program(rng, n_ops, disciplined=False, avoid_findings=False))
+    stale = staleness_programs()
+    progs.extend(stale)
+    log("staleness family: %d programs" % len(stale))
     exhaustive = False
     if tier == "thorough":
         ex = list(exhaustive_programs(3 if not enlarged else 4))
